@@ -14,12 +14,22 @@ cty/ctystrings/prefix.go) — property C05.
 
 `Value.Equals` on two known numbers (`rawNumberEqual`) compares exact integers
 exactly and everything else by math/big's shortest decimal text, which depends
-on the precision.  The text is not modelled in this slice: `numEq?` answers
-`none` (→ `.unmodelled`) exactly when the answer could depend on it (two
-non-integers of the same sign and different precision) and otherwise the exact
-comparison, which is what the Go code computes in those cases.
+on the precision.  How that question is answered is a PARAMETER of the model
+(`class EqOracle`), with two instances:
+
+* `textOracle`    — `Num.rawEqual`, the transliteration of `rawNumberEqual`
+                    (CtyModel/NumText.lean): what the code does, always answers;
+* `partialOracle` — exact comparison, and NO answer (`none` → `.unmodelled`)
+                    exactly when the answer could depend on the text (two
+                    non-integers of the same sign and different precision).
+
+Both are diffed against the code (`rfn.run` / `rfn.runx`).  The theorems of
+`Props/C05.lean` hold for every oracle that is exact wherever it answers
+(`class ExactOracle`, a law as a structure field); `partialOracle` is one, and
+`textOracle` is not — which is a recorded finding, with counterexample theorems.
 -/
 import CtyModel.Marks
+import CtyModel.NumText
 namespace CtyModel
 namespace Refine
 
@@ -84,9 +94,41 @@ def needsText (a b : Num) : Bool :=
   | .fin na _ ea pa, .fin nb _ eb pb => decide (ea < 0) && decide (eb < 0) && pa != pb && na == nb
   | _, _ => false
 
-/-- `a.Equals(b)` for known non-null numbers; `none` = not modelled -/
-def numEq? (a b : Num) : Option Bool :=
+/-- how `a.Equals(b)` answers for two known, non-null numbers; `none` = no answer -/
+class EqOracle where
+  eq : Num → Num → Option Bool
+
+/-- an oracle that is exact wherever it answers (a law, not an axiom: every theorem
+that needs it takes it as a hypothesis, and `partialOracle` is an instance) -/
+class ExactOracle extends EqOracle where
+  exact : ∀ a b t, eq a b = some t → (t = true ↔ Num.cmp a b = 0)
+
+/-- exact comparison, and no answer where the answer could depend on the decimal text -/
+def numEqPartial (a b : Num) : Option Bool :=
   if needsText a b then none else some (Num.cmp a b == 0)
+
+@[reducible] def partialOracle : EqOracle := ⟨numEqPartial⟩
+
+/-- what the code does: `rawNumberEqual` -/
+@[reducible] def textOracle : EqOracle := ⟨fun a b => some (Num.rawEqual a b)⟩
+
+instance exactPartialOracle : ExactOracle where
+  toEqOracle := partialOracle
+  exact := by
+    intro a b t h
+    change numEqPartial a b = some t at h
+    unfold numEqPartial at h
+    split at h
+    · cases h
+    · simp only [Option.some.injEq] at h
+      subst h
+      simp
+
+section Oracle
+variable [O : EqOracle]
+
+/-- `a.Equals(b)` for known non-null numbers, as the oracle answers it -/
+def numEq? (a b : Num) : Option Bool := O.eq a b
 
 /-- `a.GreaterThan(b)` / `a.LessThan(b)`: `big.Float.Cmp` -/
 def gt (a b : Num) : Bool := decide (Num.cmp a b > 0)
@@ -694,6 +736,8 @@ def includes (r : ValueRange) (v : Value) : Res Tri :=
       | _, _ => .unmodelled
     | .num _ _ _, _ => .unmodelled
     | _, _ => .ok .u
+
+end Oracle
 
 end Refine
 end CtyModel
